@@ -214,16 +214,26 @@ def build_engine(init_cfgs, n_chains, needs, chunk=None, seed=1, via="auto"):
 
 
 def drive(engine, ops):
-    """ops: list of ("append", cfg) | ("next",) | ("all",)"""
+    """ops: list of ("append", cfg) | ("next",) | ("all",) | ("try", cfg).
+    ("try", cfg) = append_epoch inside try/except RuntimeError (fault followed by continued use).
+    Returns, for the "try" operations in order, whether append_epoch raised."""
+    raised = []
     for op in ops:
         if op[0] == "append":
             engine.append_epoch(epoch_config(op[1]))
+        elif op[0] == "try":
+            try:
+                engine.append_epoch(epoch_config(op[1]))
+                raised.append(False)
+            except RuntimeError:
+                raised.append(True)
         elif op[0] == "next":
             engine.sample_next_epoch()
         elif op[0] == "all":
             engine.sample_all_epochs()
         else:
             raise ValueError(op)
+    return raised
 
 
 def sentinel_config(schedule, chunk):
